@@ -2,7 +2,7 @@
     Statements only; proofs in Proofs/Traj_Proofs.v (and Poly_Proofs.v). *)
 From Coq Require Import QArith List ZArith.
 From SB Require Import Base.Prelude Base.Num Gen.Generated Model.Codec Model.Poly Model.Traj
-  Spec.BezierSpec Spec.TrajSpec Proofs.Traj_Proofs.
+  Spec.BezierSpec Spec.TrajSpec Proofs.Traj_Proofs Base.F32 Proofs.F32Poly_Proofs Proofs.BezierGrowth_Proofs.
 Import ListNotations.
 Local Open Scope Z_scope.
 
@@ -82,3 +82,25 @@ Example traj_example :
   | _ => False
   end.
 Proof. exact Traj_Proofs.traj_example. Qed.
+
+(** ---- the binary32 evaluation of a segment axis ---- *)
+(** The power-basis coefficients of a unit-duration Bezier polynomial with
+    1..8 control points grow by at most 3^n (sum_j |c_j| <= 3^n max|P|), so
+    evaluating that polynomial in binary32 at any point of the segment is
+    within 17 * 2^-24 * 3^n * max|P| of the exact value.  This is the
+    evaluation term E of the comparison tolerance tol_at (Spec/TrajSpec.v:
+    (2n+6) * 2^-24 * 3^n * max|P| >= this bound for every n); the remaining
+    terms of tol_at (rounding of the coefficients themselves and of the curve
+    parameter) stay assumed. *)
+Theorem bezier_coefficient_growth : forall pts u M,
+  (1 <= length pts <= 8)%nat -> (forall p, In p pts -> Qabs.Qabs p <= M)%Q -> (0 <= u)%Q -> (u <= 1)%Q ->
+  (F32Poly_Proofs.abs_eval (make_bezier QOps 1%Q pts) u <= BezierGrowth_Proofs.pow3q (length pts - 1) * M)%Q.
+Proof. exact BezierGrowth_Proofs.bezier_abs_eval_bound. Qed.
+Print Assumptions bezier_coefficient_growth.
+
+Theorem segment_axis_binary32_evaluation_error : forall pts u M,
+  (1 <= length pts <= 8)%nat -> (forall p, In p pts -> Qabs.Qabs p <= M)%Q -> (0 <= u)%Q -> (u <= 1)%Q ->
+  (Qabs.Qabs (horner F32.F32Ops (make_bezier QOps 1%Q pts) u - horner QOps (make_bezier QOps 1%Q pts) u)
+   <= (17 # 16777216) * (BezierGrowth_Proofs.pow3q (length pts - 1) * M))%Q.
+Proof. exact BezierGrowth_Proofs.bezier_f32_eval_error. Qed.
+Print Assumptions segment_axis_binary32_evaluation_error.
